@@ -73,7 +73,7 @@ FIRE: List[Tuple[str, str, str, List[Tuple[str, str, str]]]] = [
     ("wrapper-json-not-decoded", "C04", "J2", [(I, "                        else _scalar_from_json(meta.wraps, value)", "                        else value")]),
     ("scalar-to-json-int64-number", "C05", "J1", [(I, "    if proto_type in INT_64_TYPES:\n        return str(value)\n", "")]),
     ("duration-text-through-float", "C15", "Q4", [(I, "        sign = -1 if text.startswith(\"-\") else 1\n        seconds, _, fraction = text.lstrip(\"+-\").partition(\".\")\n        nanos = int(fraction[:9].ljust(9, \"0\")) if fraction else 0\n        return sign * timedelta(seconds=int(seconds or 0), microseconds=nanos / 1e3)", "        return timedelta(seconds=float(text))")]),
-    ("optional-message-json-presence-dropped", "C04", "J5", [(I, "                    value._serialized_on_wire\n                    or include_default_values\n                    or meta.optional\n                    or self._include_default_value_for_oneof(\n                        field_name=field_name, meta=meta\n                    )\n                ):\n                    output[cased_name] = value.to_dict(casing, include_default_values)", "                    value._serialized_on_wire\n                    or include_default_values\n                    or self._include_default_value_for_oneof(\n                        field_name=field_name, meta=meta\n                    )\n                ):\n                    output[cased_name] = value.to_dict(casing, include_default_values)")]),
+    ("optional-message-json-presence-dropped", "C04", "J5", [(I, "                    value._serialized_on_wire\n                    or bool(value)\n                    or include_default_values\n                    or meta.optional\n                    or self._include_default_value_for_oneof(\n                        field_name=field_name, meta=meta\n                    )\n                ):\n                    output[cased_name] = value.to_dict(casing, include_default_values)", "                    value._serialized_on_wire\n                    or bool(value)\n                    or include_default_values\n                    or self._include_default_value_for_oneof(\n                        field_name=field_name, meta=meta\n                    )\n                ):\n                    output[cased_name] = value.to_dict(casing, include_default_values)")]),
     ("key-table-camel-only", "C19", "I3", [(I, "            for casing in (Casing.CAMEL, Casing.SNAKE):\n                by_key.setdefault", "            for casing in (Casing.CAMEL,):\n                by_key.setdefault")]),
     ("key-table-not-consulted", "C04", "I3", [(I, "            field_name = cls._betterproto.field_name_by_key.get(\n                key\n            ) or safe_snake_case(key)\n", "            field_name = safe_snake_case(key)\n")]),
     ("key-table-without-rstrip", "C19", "I3", [(I, "                by_key.setdefault(casing(field_name).rstrip(\"_\"), field_name)", "                by_key.setdefault(casing(field_name), field_name)")]),
@@ -84,6 +84,9 @@ FIRE: List[Tuple[str, str, str, List[Tuple[str, str, str]]]] = [
     ("map-annotation-ignores-shadowing", "C03", "Y7", [(MD, "            f\"builtins.{py_type}\" if py_type in shadowed else py_type\n", "            py_type\n")]),
     ("pydantic-enum-nonnegative", "C18", "Y8", [("src/betterproto/templates/template.py.j2", "        return core_schema.int_schema()", "        return core_schema.int_schema(ge=0)")]),
     ("comment-backslash-not-escaped", "C03", "P11", [(MD, "                line.replace(\"\\\\\", \"\\\\\\\\\").replace('\"\"\"', '\\\\\"\\\\\"\\\\\"') for line in lines", "                line.replace('\"\"\"', '\\\\\"\\\\\"\\\\\"') for line in lines")]),
+    ("getattribute-stores-every-default", "C14", "V7", [(I, "            if isinstance(value, (Message, list, dict)):\n                # Mutable defaults are kept so that they can be filled in place;\n                # everything else stays unset (a read must not look like a set).\n                super().__setattr__(name, value)", "            super().__setattr__(name, value)")]),
+    ("is-set-message-by-placeholder-only", "C06", "V7", [(I, "        if isinstance(value, Message):\n            return value._serialized_on_wire or bool(value)\n", "")]),
+    ("to-dict-drops-inplace-filled-child", "C04", "J5", [(I, "                    value._serialized_on_wire\n                    or bool(value)\n                    or include_default_values\n                    or meta.optional\n                    or self._include_default_value_for_oneof(\n                        field_name=field_name, meta=meta\n                    )\n                ):\n                    output[cased_name] = value.to_dict(casing, include_default_values)", "                    value._serialized_on_wire\n                    or include_default_values\n                    or meta.optional\n                    or self._include_default_value_for_oneof(\n                        field_name=field_name, meta=meta\n                    )\n                ):\n                    output[cased_name] = value.to_dict(casing, include_default_values)")]),
     ("mismatch-check-dropped", "C17", "M4", [(I, "            if not _wire_type_matches(parsed.wire_type, meta.proto_type, repeated):", "            if False:")]),
     ("packed-into-singular", "C17", "M4", [(I, "            repeated = proto_meta.default_gen[field_name] is list\n", "            repeated = True\n")]),
     ("empty-map-entry-dropped", "C01", "T4", [(I, "                            sk + sv,\n                            # An entry with default key and value is still an entry.\n                            serialize_empty=True,", "                            sk + sv,")]),
@@ -167,7 +170,7 @@ SILENT: List[Tuple[str, List[str], List[Any]]] = [
                                                                      "    shift = 0\n    while True:\n        if shift >= 64:\n            raise ValueError(\"Too many bytes when decoding varint.\")\n        b = first or stream.read(1)\n        first = b\"\"\n        if not b:\n            raise EOFError(\"Stream ended unexpectedly while attempting to load varint.\")\n        raw += b\n        b_int = int.from_bytes(b, byteorder=\"little\")\n        result |= (b_int & 0x7F) << shift\n        if not (b_int & 0x80):\n            return result, raw\n        shift += 7\n")]),
     ("timestamp-floor-ops", ["C15"], [(I, "        seconds, us = divmod(offset_us, 10**6)\n        return cls(seconds, us * 1000)", "        seconds = offset_us // 10**6\n        us = offset_us % 10**6\n        return cls(seconds, us * 1000)")]),
     ("kwarg-precedence-positive-form", ["C11"], [(CL, '            "timeout": self.timeout if timeout is None else timeout,', '            "timeout": timeout if timeout is not None else self.timeout,')]),
-    ("is-set-membership-form", ["C06", "C07"], [(I, "        value = self.__raw_get(name)\n        if value is PLACEHOLDER:\n            # never assigned, or reset because another member of its oneof was set\n            return False\n        return not (\n            self._betterproto.meta_by_field_name[name].optional and value is None\n        )", "        value = self.__raw_get(name)\n        if self._betterproto.meta_by_field_name[name].optional and value is None:\n            return False\n        return value is not PLACEHOLDER")]),
+    ("is-set-optional-other-form", ["C06", "C07", "C14"], [(I, "        if meta.optional:\n            return value is not None\n        if meta.group is not None:", "        if meta.optional:\n            return not (value is None)\n        if meta.group is not None:")]),
     ("comments-and-docstrings", ALL, [(I, "def _pack_fmt(proto_type: str) -> str:\n    \"\"\"Returns a little-endian format string for reading/writing binary.\"\"\"", "def _pack_fmt(proto_type: str) -> str:\n    \"\"\"Returns a little-endian format string for reading/writing binary.\n\n    (extra documentation line)\n    \"\"\"\n    # a comment"),
                                        (CH, "    def close(self):\n        \"\"\"\n        Close this channel to new items\n        \"\"\"", "    def close(self):\n        \"\"\"\n        Close this channel to new items (idempotent).\n        \"\"\"\n        # flush happens asynchronously"),
                                        (TP, "{% for service in output_file.services %}\nclass {{ service.py_name }}Stub(betterproto.ServiceStub):", "{# client side #}\n{% for service in output_file.services %}\nclass {{ service.py_name }}Stub(betterproto.ServiceStub):")]),
